@@ -7,6 +7,8 @@ import (
 	"fmt"
 	"strings"
 
+	"github.com/mandykoh/prism/meta/icc"
+
 	"verifharness/internal/core"
 	"verifharness/internal/imggen"
 )
@@ -56,6 +58,12 @@ func c17Text(rng *core.RNG, kind string, n int) []uint16 {
 			u = append(u, uint16(32+rng.Intn(95)))
 		case "bmp":
 			c := uint16(0x00A0 + rng.Intn(0xD000))
+			u = append(u, c)
+		case "latin1": // every code point below U+0100, some of them above U+007F
+			c := uint16(0x20 + rng.Intn(0x5F))
+			if rng.Intn(3) == 0 || len(u) == 0 {
+				c = uint16(0xA1 + rng.Intn(0x5E))
+			}
 			u = append(u, c)
 		case "astral":
 			if rng.Intn(3) == 0 && len(u)+2 <= n {
@@ -113,7 +121,7 @@ func c17Gen(rng *core.RNG, idx int) c17Profile {
 			case 2:
 				nrec = 7 + rng.Intn(34)
 			}
-			content = []string{"ascii", "bmp", "astral", "empty-en"}[rng.Intn(4)]
+			content = []string{"ascii", "bmp", "astral", "empty-en", "latin1"}[rng.Intn(5)]
 			enpos = []string{"first", "middle", "last", "absent", "twice"}[rng.Intn(5)]
 			if nrec == 1 && (enpos == "middle" || enpos == "twice") {
 				enpos = "first"
@@ -271,6 +279,11 @@ func c17Gen(rng *core.RNG, idx int) c17Profile {
 	return p
 }
 
+type c17Kept struct {
+	prof *icc.Profile
+	p    c17Profile
+}
+
 func firstNonEmpty(recs []imggen.MlucRecord) int {
 	for i, r := range recs {
 		if len(r.Text) > 0 {
@@ -302,7 +315,13 @@ func c17Check(profile []byte, accept []string, hasDesc bool, via string) (kind, 
 		}
 		data = got
 	}
-	p, err, pan := readProfile(bytes.NewReader(data))
+	rd := bytes.NewReader(data)
+	if via == "offset" {
+		// the profile sits after other bytes in the same reader (e.g. after a chunk header)
+		rd = bytes.NewReader(append([]byte("ICC_PROFILE\x00\x01\x01"), data...))
+		_, _ = rd.Seek(14, 0)
+	}
+	p, err, pan := readProfile(rd)
 	if pan != nil {
 		return "panic", fmt.Sprintf("ReadProfile panicked: %v", pan)
 	}
@@ -337,16 +356,41 @@ func runC17(r *core.Run) {
 	shards := 64
 	core.ParallelFor(shards, 16, func(sh int) {
 		rg := core.NewRNG(r.Seed, "C17", fmt.Sprint(sh))
+		var ring []c17Kept
 		for i := 0; i < n/shards; i++ {
 			p := c17Gen(rg, sh*(n/shards)+i)
-			for _, via := range []string{"direct", "jpeg"} {
-				if via == "jpeg" && i%8 != 0 {
+			for _, via := range []string{"direct", "jpeg", "offset"} {
+				if via != "direct" && i%8 != 0 {
 					continue
 				}
 				kind, msg := c17Check(p.bytes, p.accept, p.hasDesc, via)
 				r.AddEvals(1)
 				if kind != "" {
 					r.Violate("profile", kind+"/"+via, p.name+": "+msg, c17Case{p.name, base64.StdEncoding.EncodeToString(p.bytes), p.accept, p.hasDesc, via})
+				}
+			}
+			// deferred: keep the parsed profile and ask for its description only after
+			// several other profiles have been read (retained tag data must stay intact)
+			if p.hasDesc {
+				if prof, err, pan := readProfile(bytes.NewReader(p.bytes)); err == nil && pan == nil && prof != nil {
+					ring = append(ring, c17Kept{prof, p})
+				}
+				if len(ring) >= 6 {
+					for _, k := range ring {
+						d, derr, dpan := description(k.prof)
+						okd := false
+						for _, a := range k.p.accept {
+							if a == d {
+								okd = true
+							}
+						}
+						r.AddEvals(1)
+						if dpan != nil || derr != nil || !okd {
+							r.Violate("profile", "deferred-description", fmt.Sprintf("%s: Description() asked after other profiles had been read = %q (err %v, panic %v), acceptable: %q", k.p.name, d, derr, dpan, k.p.accept),
+								c17Case{k.p.name, base64.StdEncoding.EncodeToString(k.p.bytes), k.p.accept, true, "deferred"})
+						}
+					}
+					ring = ring[:0]
 				}
 			}
 			if p.nt {
